@@ -141,6 +141,9 @@ C03_acked_survive(h) ==
         \A i \in DOMAIN h.post :
            /\ i \in DOMAIN h.after[k].view
            /\ NoTime(h.after[k].view)[i] = NoTime(h.post)[i]
+\* ... and it stays that way: the next commands do not resurrect half of the
+\* interrupted command (a leftover temp file, for instance)
+C04_stays(h) == C03_acked_survive(h)
 C04_all_or_nothing(h) ==
   (h.facts.crashes > 0 /\ h.facts.readable_after_crash /\ h.facts.torn = "between" /\ Cardinality(Idx(h)) = 1) =>
      LET p == h.procs[1]
